@@ -72,10 +72,34 @@ var domainGen = rapid.Custom(func(t *rapid.T) string {
 	case 0:
 		return rapid.SampledFrom([]string{"[1.2.3.4]", "[IPv6:::1]", "[IPv6:2001:DB8::1]", "[ipv6:::1]", "[IPV6:::1]", "[::1]"}).Draw(t, "lit")
 	case 1:
-		return rapid.SampledFrom([]string{"a_b.test", "x--y.test", "1.2", "UPPER.TEST", "host", "a.b.c.d.e.test."}).Draw(t, "odd")
+		return rapid.SampledFrom([]string{"a_b.test", "x--y.test", "1.2", "UPPER.TEST", "host", "a.b.c.d.e.test.", longDomain(129), longDomain(200), longDomain(255), longDomain(128)}).Draw(t, "odd")
 	}
 	return hx.ReCase(rapid.SampledFrom(hx.Domains).Draw(t, "dom"), rapid.Uint64().Draw(t, "dmask")&rapid.Uint64().Draw(t, "dmask2"))
 })
+
+// longDomain builds a valid domain of exactly n bytes from labels of at most 63.
+func longDomain(n int) string {
+	var b strings.Builder
+	for b.Len() < n-5 {
+		l := n - 5 - b.Len()
+		if l > 60 {
+			l = 60
+		}
+		b.WriteString(strings.Repeat("l", l))
+		if b.Len() < n-5 {
+			b.WriteByte('.')
+		}
+	}
+	for b.Len() < n-5 {
+		b.WriteByte('x')
+	}
+	s := strings.TrimSuffix(b.String(), ".")
+	s += ".test"
+	for len(s) < n {
+		s = "p" + s
+	}
+	return s[:n]
+}
 
 var addrGen = rapid.Custom(func(t *rapid.T) string {
 	a := localGen.Draw(t, "local") + "@" + domainGen.Draw(t, "domain")
